@@ -593,9 +593,14 @@ def work(task):
     else:
         expect = [tuple(tuple(w) if isinstance(w, list) else w for w in e) for e in task["expect"]] if task.get("expect") else None
         expect = _fix_expect(expect)
-        sched.explore(s, make, bound, check, prefix=task["prefix"], expect=expect, stats=stats, max_exec=task.get("max_exec"))
+        try:
+            sched.explore(s, make, bound, check, prefix=task["prefix"], expect=expect, stats=stats, max_exec=task.get("max_exec"))
+        except core.HarnessError as e:
+            raise core.HarnessError(f"{h.name} {h.ops} level={level} bound={bound} subtree={task['prefix']}: {e}") from e
         if stats["capped"]:
             acc.count("capped_subtrees")
+        if stats.get("divergence_retries"):
+            acc.count("replay_divergence_retries", stats["divergence_retries"])
     acc.axis("harness", h.name)
     acc.axis("ops", "+".join(h.ops))
     acc.axis("level", level)
@@ -660,7 +665,13 @@ def harness_specs(quick):
 
 
 def run(ctx):
+    import os
+
     specs = harness_specs(ctx.quick)
+    only = os.environ.get("VERIF_C19_ONLY")
+    if only:
+        specs = [s for s in specs if any(o in f"{s['harness']}:{'+'.join(s['ops'])}" for o in only.split(","))]
+        ctx.cap(f"debug filter VERIF_C19_ONLY={only}")
     # phase 1: root execution of each harness -> subtrees
     roots = core.pmap(work, [dict(s, root=True) for s in specs])
     ctx.merge(roots, part="roots")
